@@ -76,3 +76,98 @@ PROPS = {
         quick=dict(wall=40), thorough=dict(wall=900),
     ),
 }
+
+
+def _lockstep(prop, what):
+    return dict(
+        engine="e1", level="exploration",
+        rule="one evaluation = one seeded run: 1-3 simulated clients each owning a key prefix run generated programs of "
+             + what + " with read-back after mutations, fragmented/pipelined requests, fake-clock sleeps and co-tenants on "
+             "colliding stripes; every reply is compared with the reference model in lock-step; non-trivial = at least 5 "
+             "replies checked; distinct = distinct trace hash",
+        state_measure="hash of the canonical final keyspace dump",
+        components=REAL_E1,
+        assumptions=["reference model written from the Redis 7 command reference; error text not compared"],
+        quick=dict(wall=35), thorough=dict(wall=600),
+    )
+
+
+PROPS["C09"] = _lockstep("C09", "list commands (all index/count shapes, duplicates, LMOVE, LPOS options)")
+PROPS["C10"] = _lockstep("C10", "hash commands (empty/numeric/extreme fields and values, HRANDFIELD relational)")
+PROPS["C11"] = _lockstep("C11", "set commands (algebra over existing/missing/wrong-typed keys, STORE forms, SPOP/SRANDMEMBER relational)")
+PROPS["C12"] = _lockstep("C12", "sorted-set commands (all ZADD options, ties, infinities, updates; ZRANGE/ZRANK relational under ties; AVL self-check)")
+PROPS["C18"] = _lockstep("C18", "stream commands (explicit/partial/auto IDs under a controlled millisecond clock, trimming, all XRANGE bounds)")
+
+PROPS["C04"] = dict(
+    engine="e1", level="exploration",
+    rule="one evaluation = one seeded run: an attacker connection sends 4-13 adversarial (command, argv) vectors (every registered "
+         "command name in any letter case, arity 0-6, adversarial alphabet, option keywords, one key of each type, missing key, "
+         "repeated key); the run index walks the (command x arity) grid so every cell is visited; after each input the same key, "
+         "other keys and other connections are probed; oracle = process alive, all probes answered, no deadlock, no leaked lock, "
+         "every reply RESP, blocking pops answer by their timeout; distinct = distinct trace hash",
+    state_measure="hash of the canonical final keyspace dump",
+    components=REAL_E1,
+    assumptions=["an executor panic counts as a process death (no recover exists on any server path)",
+                 "blocking-pop timeouts are kept small so that 'never answers' is decidable"],
+    quick=dict(wall=35), thorough=dict(wall=600),
+)
+
+PROPS["C02"] = dict(
+    engine="e1", level="exploration",
+    rule="one evaluation = one seeded stream: (parser mode) a sequence of argv with CR/LF/NUL/empty/non-UTF-8/4096-byte arguments, "
+         "encoded by the simulator, optionally followed by ONE command mutated so that it violates the RESP grammar, cut into "
+         "tape-chosen read chunks and fed to resp.ParseStream; (server mode) the same through Manager.Handle beside lock-step "
+         "bystanders; oracle = decoded argv == encoded argv, malformed part never yields a command nor changes the keyspace, "
+         "no death; non-trivial = at least one fragmented read or a malformed stream; distinct = distinct (stream, chunking) hash",
+    state_measure="hash of the canonical final keyspace dump (server mode)",
+    components=REAL_E1,
+    assumptions=["'malformed' = the simulator's own RESP decoder cannot read a complete value from the mutated bytes at end of stream"],
+    quick=dict(wall=35), thorough=dict(wall=600),
+)
+PROPS["C03"] = _lockstep("C03", "all command families mixed, pipelined 1-50 deep with unique PING sync markers, payloads with CR/LF/NUL/empty")
+PROPS["C06"] = dict(
+    engine="e1", level="exploration",
+    rule="one evaluation = one seeded run: a time-controlling client attaches deadlines in every way (EXPIRE NX/XX/GT/LT, SETEX, SET "
+         "EX/PX/EXAT) to values of every type, keeps/replaces/removes them, and probes with reading and writing commands at fake-clock "
+         "instants stepped around the deadline (D-1s+e .. D+1s+e, days later) while the timer goroutine, the lazy check and co-tenants "
+         "are interleaved by the tape; oracle = reference model with a one-second expiry window, monotone inside it; non-trivial = "
+         "at least two commands judged on keys carrying a deadline and one clock advance; distinct = distinct trace hash",
+    state_measure="hash of the canonical final keyspace dump",
+    components=REAL_E1,
+    assumptions=["one expiry instant E with D <= E < D+1s is accepted (whole-second and millisecond-precise implementations both pass)"],
+    quick=dict(wall=35), thorough=dict(wall=600),
+)
+PROPS["C13"] = dict(
+    engine="e1", level="exploration",
+    rule="one evaluation = one seeded run: 2-4 clients issue MSET/RENAME/LMOVE/SMOVE/set algebra (+STORE)/multi-key DEL/EXISTS/MGET "
+         "mixed with single-key commands over 2-4 keys with ShardNum 1-3 (forced stripe collisions); exact deadlock detection on "
+         "the modelled locks, porcupine over the joint keyspace, auditor read-back; non-trivial = a context switch while a stripe was "
+         "held and at least one multi-key command; distinct = distinct trace hash",
+    state_measure="hash of the canonical final keyspace dump",
+    components=REAL_E1,
+    assumptions=["STORE forms: reply not judged, only deadlock freedom and well-formed values"],
+    quick=dict(wall=35), thorough=dict(wall=600),
+)
+PROPS["C19"] = dict(
+    engine="e1", level="exploration",
+    rule="one evaluation = one seeded run: 1-4 subscriber connections, 1-3 publishers, 1-3 channels, unique payloads, abrupt "
+         "disconnects; every write to a subscriber connection is a scheduling point; oracle = per-subscriber delivery log vs "
+         "publish history (exactly once, intact, right channel, order of non-overlapping publishes, completeness for stable "
+         "subscribers), PUBLISH count == receivers, no publisher left without reply; non-trivial = a message delivered and a "
+         "preemption; distinct = distinct trace hash",
+    state_measure="n/a",
+    components=REAL_E1,
+    assumptions=["a subscriber whose SUBSCRIBE overlaps a PUBLISH may or may not receive it"],
+    quick=dict(wall=35), thorough=dict(wall=600),
+)
+PROPS["C20"] = dict(
+    engine="e1", level="exploration",
+    rule="one evaluation = one seeded run: 1-4 connections interleave SELECT (valid, out of range, negative, non-numeric, wrong "
+         "arity) with SET/GET/DEL/EXISTS of the same key names, Databases in {1,2,16}; oracle = porcupine against a reference model "
+         "with a selected-database field per connection; non-trivial = at least one SELECT and two active connections; distinct = "
+         "distinct trace hash",
+    state_measure="hash of the canonical final keyspace dumps",
+    components=REAL_E1,
+    assumptions=[],
+    quick=dict(wall=35), thorough=dict(wall=600),
+)
